@@ -81,7 +81,8 @@ type outcome struct {
 }
 
 // repeatRuns runs goderive n times on fresh copies of the same files and returns the distinct outcomes.
-func repeatRuns(c *core.Ctx, bin, root string, files map[string]string, n int) ([]outcome, []map[string]interface{}, bool, error) {
+func repeatRuns(c *core.Ctx, bin, root string, files map[string]string, n int, flags ...string) ([]outcome, []map[string]interface{}, bool, error) {
+	args := append(append([]string{}, flags...), ".")
 	seen := map[string]*outcome{}
 	var first []map[string]interface{}
 	ambiguous := false
@@ -94,7 +95,7 @@ func repeatRuns(c *core.Ctx, bin, root string, files map[string]string, n int) (
 		if k == 0 {
 			trace = filepath.Join(root, ".trace")
 		}
-		r, err := gd.Run(c, bin, filepath.Join(root, "p"), []string{"."}, trace, 0)
+		r, err := gd.Run(c, bin, filepath.Join(root, "p"), args, trace, 0)
 		if err != nil {
 			return nil, nil, false, err
 		}
@@ -117,7 +118,7 @@ func repeatRuns(c *core.Ctx, bin, root string, files map[string]string, n int) (
 		seen[key].Count++
 		if k%8 == 0 && r.Exit == 0 {
 			// "on every run": also the run that finds the previous run's own output in place
-			r2, err := gd.Run(c, bin, filepath.Join(root, "p"), []string{"."}, "", 0)
+			r2, err := gd.Run(c, bin, filepath.Join(root, "p"), args, "", 0)
 			if err != nil {
 				return nil, nil, false, err
 			}
@@ -183,6 +184,27 @@ func cont(l []*Inner, i *Inner) bool { return deriveContains(l, i) }
 
 // two calls of one plugin on one source line, the second typed only after the first generation pass
 func mix(a, b *Inner, m map[string]*Rich, ks []string) bool { return deriveEqualI(a, b) && deriveEqualK(deriveKeys(m), ks) }
+`
+
+// call names that start with two configured plugin prefixes at once
+const overlapCalls = `package p
+
+func h(a *Rich) uint64                { return Hash(a) }
+func hi(a *Inner) uint64              { return HashInner(a) }
+func has(l []*Inner, i *Inner) bool   { return Has(l, i) }
+func hass(l []string, s string) bool  { return HasStr(l, s) }
+func uniq(l []*Inner) []*Inner        { return SortUniq(l) }
+func srt(l []string) []string         { return Sort(l) }
+func srti(l []int) []int              { return SortInts(l) }
+`
+
+const overlapCalls2 = `package p
+
+func e(a, b *Rich) bool                 { return dE(a, b) }
+func c(a, b *Rich) int                  { return dEq(a, b) }
+func k(m map[string]*Rich) []string     { return dEqK(m) }
+func ci(a, b *Inner) int                { return dEqInner(a, b) }
+func ei(a, b *Inner) bool               { return dEInner(a, b) }
 `
 
 func siblingFiles(name string) map[string]string {
@@ -339,6 +361,28 @@ func checkC08(c *core.Ctx) error {
 	byID["c08-rich"] = &result{key: "rich package (9 plugins, nested helpers)", outcomes: ro, n: nRich}
 	outs = append(outs, mkRun("c08-rich", revs, map[string]interface{}{"ev": "DetObs", "n": nRich, "outcomes": ro, "ambiguousTrace": false, "ambiguousModel": false}))
 	runsTotal += nRich
+	// plugin prefixes where one is a proper prefix of another: the dispatch order among matching plugins must not vary
+	overlapFiles := map[string]string{"go.mod": "module m\n\ngo 1.24\n", "p/types.go": richTypes, "p/calls.go": overlapCalls}
+	for oi, fl := range [][]string{
+		{"-pluginprefix=contains=Has,hash=Hash,sort=Sort,unique=SortUniq"},
+		{"-prefix=d", "-pluginprefix=equal=dE,compare=dEq,keys=dEqK"},
+	} {
+		files := overlapFiles
+		if oi == 1 {
+			files = map[string]string{"go.mod": overlapFiles["go.mod"], "p/types.go": richTypes, "p/calls.go": overlapCalls2}
+		}
+		oo, oevs, _, err := repeatRuns(c, bin, filepath.Join(c.Work, "det", "overlap"), files, nRich, fl...)
+		if err != nil {
+			return err
+		}
+		if len(oo) == 1 && oo[0].Exit != 0 {
+			return fmt.Errorf("the overlapping-prefix determinism package %d does not generate (harness scenario broken)", oi)
+		}
+		id := fmt.Sprintf("c08-overlap%d", oi)
+		byID[id] = &result{key: "overlapping plugin prefixes " + strings.Join(fl, " "), outcomes: oo, n: nRich}
+		outs = append(outs, mkRun(id, oevs, map[string]interface{}{"ev": "DetObs", "n": nRich, "outcomes": oo, "ambiguousTrace": false, "ambiguousModel": false}))
+		runsTotal += nRich
+	}
 	// invocation context: addressing and grouping variants of package p in a module with siblings
 	ctxOut, nVariants, err := contextVariants(c, bin, richFiles)
 	if err != nil {
@@ -381,7 +425,7 @@ func checkC08(c *core.Ctx) error {
 	c.Set("distinct_nontrivial", len(keys))
 	c.Set("scenarios_ambiguous_in_model", countTrue(modelAmb))
 	c.Set("scenarios_ambiguous_in_trace", ambTrace)
-	c.Set("rule", "TLC explores Determinism.tla (self-composition of name registration over mutually assignable argument types, every pair of map-order resolutions); every scenario is run repeatedly on the real generator (60/400 times where the model or the recorded trace shows a lookup with several matches, else 3/10), plus a 9-plugin package and 10+ ways of addressing/grouping packages; non-trivial = distinct scenarios")
+	c.Set("rule", "TLC explores Determinism.tla (self-composition of name registration over mutually assignable argument types, every pair of map-order resolutions); every scenario is run repeatedly on the real generator (60/400 times where the model or the recorded trace shows a lookup with several matches, else 3/10), plus a 9-plugin package, two packages under -pluginprefix configurations where one plugin prefix is a proper prefix of another, and 10+ ways of addressing/grouping packages; non-trivial = distinct scenarios")
 	c.Set("exhaustive", false)
 	c.Assume("'on every run' is statistical on the real binary (map order is re-randomised per run); exhaustive only in the model")
 	return nil
